@@ -364,6 +364,10 @@ def build(kind, seq):
                 out.append(O(a=O() if s == MISSING else O(b=s), pos=i))
         elif kind == "tuple":
             out.append((s, i))
+        elif kind == "list2":
+            out.append([s, i])
+        elif kind == "emptykey":
+            out.append({"": s, "pos": i})
         elif kind == "pair":
             out.append({"a": s[0], "b": s[1], "pos": i})
         elif kind == "pairobj":
@@ -492,6 +496,27 @@ def configs():
         add(name, ("none",), alpha=PART)
         add(name, ("string",), alpha=PART)
         add(name, ("in", Var("pool", [0, "a"])), alpha=(0, "a", 1))
+    # legal but falsy / unusual attributes: integer index 0 and 1 (tuple and list elements; index 1 is the position
+    # tag) and the empty-string key, for every attribute-taking filter
+    for kind, attr, alpha_s, alpha_i in (("tuple", 0, KEYS, INTS), ("list2", 0, KEYS, INTS), ("tuple", 1, KEYS, INTS),
+                                         ("list2", 1, KEYS, INTS), ("emptykey", "", KEYS, INTS)):
+        add("join", ("|", attr), kind=kind, alpha=alpha_s)
+        add("join", (), {"attribute": attr}, kind=kind, alpha=(0, "x", None))
+        add("map", (), {"attribute": attr}, kind=kind, alpha=alpha_s)
+        add("map", (), {"attribute": attr, "default": "D"}, kind=kind, alpha=(0, "x", None))
+        add("sum", (attr,), kind=kind, alpha=alpha_i)
+        add("sum", (), {"attribute": attr, "start": 5}, kind=kind, alpha=alpha_i)
+        add("sort", (), {"attribute": attr}, kind=kind, alpha=alpha_s)
+        add("sort", (True, True, attr), kind=kind, alpha=alpha_s)
+        add("unique", (), {"attribute": attr}, kind=kind, alpha=alpha_s)
+        add("unique", (True, attr), kind=kind, alpha=alpha_s)
+        add("min", (), {"attribute": attr}, kind=kind, alpha=alpha_s)
+        add("max", (False, attr), kind=kind, alpha=alpha_i)
+        add("groupby", (attr,), kind=kind, alpha=alpha_s)
+        add("groupby", (), {"attribute": attr, "case_sensitive": True}, kind=kind, alpha=alpha_s)
+        for name in ("selectattr", "rejectattr"):
+            add(name, (attr,), kind=kind, alpha=(0, "x", None))
+            add(name, (attr, "equalto", 1 if attr == 1 else "x"), kind=kind, alpha=alpha_s)
     for name in ("selectattr", "rejectattr"):
         add(name, ("a",), kind="dict", alpha=(0, "x", None))
         add(name, ("a",), kind="obj", alpha=(0, 1, ""))
